@@ -23,7 +23,8 @@ CHECKS = {
         "(estimand / refusal / anything else) is compared with an independent identifiability oracle (Tian-Pearl closure, "
         "cross-checked against a brute-force hedge search), and the caller's graph and query objects are snapshotted before and "
         "after. Bounded-exhaustive over (graph, X, Y); five-node graphs up to 8 (thorough 9) edges on the slice of identifiable queries "
-        "whose first step is line 4 into several line-7 districts.",
+        "whose first step is line 4 into several line-7 districts. Builder phase: every sequence of three steps (edge insertions and "
+        "count-preserving edge moves) on one live graph object over three names, every query asked again after every step.",
         note="Trusted: identifiability oracles in mc/graphs.py (two independent ones, cross-checked exhaustively for n<=4).",
         design="4/C02",
     ),
@@ -31,14 +32,15 @@ CHECKS = {
         text="Every (X,Y,Z) split on every labelled ADMG up to 3 nodes and four-node name-ordered graphs (quick: <=4 edges; thorough: "
         "all 4096 plus labelled <=4 edges) is run through both IDC entry points; estimands are evaluated exactly on generic witness "
         "SCMs for every assignment and compared with P(y,z|do x)/P(z|do x); any outcome other than estimand/refusal is a violation. Builder phase: every sequence "
-        "of three edge insertions on one live graph object, every query asked again after every insertion.",
+        "of three edge insertions on one live graph object, every query asked again after every insertion. Five-node slice: the "
+        "name-ordered graphs with a collider of at least three parents (quick <=4 edges, thorough <=5), all-binary witness.",
         note="Trusted: mc/scm.py and mc/semantics.py; bounded-exhaustive, witnesses stand in for all SCMs.",
         design="4/C03",
     ),
     "C05": dict(
         text="Every (graph, X, Y, list of up to two source domains (Z_i, W_i)) within the bound (three-node graphs exhaustively, four-node "
         "slices without domains, with one and with two single-experiment domains) is run through identify_target_outcomes with "
-        "argument sets that are re-used across calls and snapshotted; "
+        "argument sets that are re-used across calls and snapshotted (with two domains the two mappings are also written in opposite key order); "
         "the estimand is evaluated on a multi-domain witness family (source models share every mechanism with the target except at the "
         "nodes marked by the selection diagram) and compared with the target P*(y|do x) for every assignment; with no domains the "
         "None-ness must coincide with ID-identifiability. A denser four-node slice is checked for the kind of outcome and side effects only "
@@ -61,7 +63,8 @@ CHECKS = {
         "enumerating every exogenous setting, for every base value assignment, and compared with the probability of the "
         "conjunction; Zero() is accepted only for probability-zero events; only the 'unidentifiable' refusal may be raised. "
         "Three defect mechanisms of ID* that the repository's own tests pin are listed in known_findings.json with an index of "
-        "their failing inputs; any other failing input is a violation.",
+        "their failing inputs; any other failing input is a violation. Plus 1 080 five- and six-node three-world cases (three "
+        "outcomes, each the child of exactly the variables its own world intervenes on) and builder sequences on one live graph object.",
         note="Trusted: mc/fscm.py (functional witness, noise enumeration), evaluator, reading of values stated in DESIGN 2.4.",
         design="4/C07",
     ),
@@ -79,7 +82,7 @@ CHECKS = {
         text="Same event space: make_counterfactual_graph's relabelled event must have the same probability as the original on the "
         "functional witness for every base assignment, 'inconsistent' only for probability-zero events, and the returned graph "
         "must be a DAG equal to the ancestors of the relabelled event's variables; graph and event dict must come back unchanged. "
-        "Builder phase: every sequence of three edge insertions on one live graph object, the construction asked after every insertion.",
+        "Three-node graphs include three-world triples. Builder phase: every sequence of three edge insertions on one live graph object, the construction asked after every insertion.",
         note="Trusted: mc/fscm.py. Exceptions on events containing a self-intervened variable are counted, not judged (the property "
         "promises no result there).",
         design="4/C18",
@@ -92,7 +95,8 @@ CHECKS = {
         "probability zero) get_ancestral_components is compared with Definition 4.2, and the counterfactual-factor factorisation of non-reflexive "
         "queries must evaluate to the query's probability with multi-world terms obtained by noise enumeration. Defects pinned by the repository's tests are listed "
         "with an index of failing inputs. The definitional clauses are also checked on four-node graphs, and (with the components) "
-        "after every step of every sequence of three edge insertions on one live graph object.",
+        "after every step of every sequence of three edge insertions on one live graph object. On three-node graphs simplify is also "
+        "judged on every pair of non-reflexive items with up to two subscripts each.",
         note="Trusted: mc/fscm.py and the definition-based references for Definitions 2.1 and 4.2 (two worlds of one vertex are "
         "treated as linked, since they share exogenous noise).",
         design="4/C19",
@@ -130,7 +134,8 @@ CHECKS = {
         text="Breadth-first exploration of expressions built by the public operators from an alphabet with value marks, + / - "
         "subscripts, populations, Q-factors and constants: every state is printed and parsed back; the parsed object's value "
         "function (opaque-leaf semantics, exact rationals, every assignment) must equal the original's, and in the "
-        "un-nested-division sub-family the parsed object must be equal and print identically.",
+        "un-nested-division sub-family the parsed object must be equal and print identically. Name slice: each of the 546 documented "
+        "variable names in 16-20 roles must parse back to the same object.",
         note="Trusted: evaluator with opaque leaves (a term's value depends only on its item set and population).",
         design="4/C12",
     ),
@@ -155,7 +160,8 @@ CHECKS = {
         text="Every (a, b, C) on every ADMG of the bound is passed to are_sigma_separated and compared with the path-definition "
         "d-separation oracle; on every cyclic directed mixed graph of the bound the verdict is compared with the reversed call "
         "(symmetry) and with the adjacency rule; on graphs up to four nodes the conditioning set is also given as a frozenset and "
-        "as a one-shot generator.",
+        "as a one-shot generator. Builder phase: every sequence of three edge insertions over four names on one live graph object, every "
+        "query after each insertion, then a copy of the graph gets one more edge and original and copy are asked again.",
         note="Trusted: path-definition separation oracle. Cyclic graphs: only symmetry and adjacency are judged, as the property states.",
         design="4/C20",
     ),
